@@ -363,7 +363,7 @@ def check_detector(ctx, tag, kw, set_data, first_ctrl, threshold, config, wait_r
                'a valid non-matching word after a completed set must end the run of consecutive sets: %s' % bad)
     # counter / strobe truth table
     fd = [a for a in cdrv if q.state_of(a) == final]
-    dd = [a for a in ir.drivers('self.detected', exact=True) if q.state_of(a) in (final, None)]
+    dd = [x for a in ir.drivers('self.detected', exact=True) if q.state_of(a) in (final, None) for x in q.flag_arms(ir, a)]
     leaves = sorted(set(_guard_leaves(fd + dd)) | {cmp_atom})
     bad = None
     for asg in q.all_assignments(leaves):
@@ -489,7 +489,7 @@ def check_emitter(ctx, tag, kw, set_data, first_ctrl, total, config):
            'after the last set of the burst, with start, a new burst starts from word 0: outcomes %s' % _names(og))
     cdrv = ir.drivers(cnt, exact=True)
     fd = [a for a in cdrv if q.state_of(a) == last]
-    dd = [a for a in ir.drivers('self.done', exact=True) if q.state_of(a) in (last, None)]
+    dd = [x for a in ir.drivers('self.done', exact=True) if q.state_of(a) in (last, None) for x in q.flag_arms(ir, a)]
     leaves = sorted(set(_guard_leaves(fd + dd)) | {cmp_atom, READY})
     bad = None
     for asg in q.all_assignments(leaves):
